@@ -198,6 +198,12 @@ pub fn gen(ctx: &mut Ctx, idx: u64) -> (RunSpec, Cfg) {
             }
         }
     }
+    // the one reader that takes the option at construction: a third of its histories start there
+    if entry == Entry::Xls && nsheets > 0 && ch.chance(1, 3) {
+        let d = names.get(target).and_then(|n| m.defaults.get(n)).and_then(|r| r.as_ref().ok());
+        let c = candidates(&mut ch, d);
+        ops.insert(0, Op::OpenWith(*ch.pick(&c)));
+    }
     (
         RunSpec {
             property: ID.into(),
